@@ -185,7 +185,9 @@ def build(case, full, budget=None, G=None, extra=None):
     kw = dict(tmin=tmin, tmax=tmax, return_full_data=full)
     if extra:
         kw.update(extra)
-    if KIND[sim] != 'generic':
+    if KIND[sim] != 'generic' and case.get('use_rho') is not None:
+        kw['rho'] = case['use_rho']           # random initial infection instead of an explicit set
+    elif KIND[sim] != 'generic':
         kw['initial_infecteds'] = list(I0)
         if R0 and sim in HAS_R0:
             kw['initial_recovereds'] = list(R0)
